@@ -9,23 +9,27 @@ Local Open Scope string_scope.
 Local Open Scope Z_scope.
 
 (* ---------------------------------------------------------------- the translated readers *)
-Ltac split_lookup :=
+(* case analysis on the attribute table entry; the equation is kept because evaluation exposes further occurrences of the
+   same lookup only after the first one is decided (guard-clause spellings: `in` test first, subscript later) *)
+Ltac reader_tac :=
+  cbn -[lookup];
   repeat match goal with
-         | |- context [lookup ?k ?a] => destruct (lookup k a) as [[? | ? | ? | ? | ] | ]; cbn
-         end.
+         | E : lookup ?k ?a = _ |- context [lookup ?k ?a] => rewrite E; cbn -[lookup]
+         | |- context [lookup ?k ?a] =>
+           let E := fresh "E" in destruct (lookup k a) as [[? | ? | ? | ? | ] | ] eqn:E; cbn -[lookup]
+         | d : option _ |- _ => destruct d; cbn -[lookup]
+         end; reflexivity.
 
 Lemma gen_get_int_exact : forall n name d,
   call n gen_get_int (int_args name d) = Some (of_oz (get_int n name d)).
 Proof.
-  intros n name d. unfold call, gen_get_int, int_args, get_int. cbn.
-  split_lookup; destruct d; reflexivity.
+  intros n name d. unfold call, gen_get_int, int_args, get_int. reader_tac.
 Qed.
 
 Lemma gen_get_str_exact : forall n name d,
   call n gen_get_str (str_args name d) = Some (of_os (get_str n name d)).
 Proof.
-  intros n name d. unfold call, gen_get_str, str_args, get_str. cbn.
-  split_lookup; destruct d; reflexivity.
+  intros n name d. unfold call, gen_get_str, str_args, get_str. reader_tac.
 Qed.
 
 Lemma nth_error_present : forall (l : list bool) (i : nat),
